@@ -454,7 +454,7 @@ func genC03(t *rapid.T) c03Case {
 		Flags:    rapid.IntRange(0, 63).Draw(t, "flags"),
 		Size:     pick(t, "size", uint64(0), 1, 3, 69, 70, 71, 4096, 100000),
 		Creator:  pick(t, "creator", "same", "other", "plain"),
-		Cache:    cacheCfg{AttrTTLns: pick(t, "ttl", int64(1), int64(3600e9)), AttrSize: pick(t, "asize", 1, 10000), DirCache: rapid.Bool().Draw(t, "dc"), Negative: rapid.Bool().Draw(t, "neg"), Conn: rapid.IntRange(0, 3).Draw(t, "conn") == 0, Verbose: rapid.IntRange(0, 5).Draw(t, "verbose") == 0},
+		Cache:    cacheCfg{AttrTTLns: pick(t, "ttl", int64(1), int64(3600e9)), AttrSize: pick(t, "asize", 1, 10000), DirCache: rapid.Bool().Draw(t, "dc"), Negative: rapid.Bool().Draw(t, "neg"), Conn: rapid.IntRange(0, 3).Draw(t, "conn") == 0, Verbose: rapid.IntRange(0, 5).Draw(t, "verbose") == 0, Limits: rapid.IntRange(0, 5).Draw(t, "limits") == 0},
 		PreLook:  rapid.Bool().Draw(t, "prelook"),
 		Appear:   pick(t, "appear", 0, 0, 0, 1, 2, 3, 4, 5),
 		Former:   pick(t, "former", "", "", "file", "dir", "link"),
